@@ -260,24 +260,56 @@ theorem loadRecording_ok (file : List Frame) (sr : Nat) (d : Rat) (a : TimeArray
   rw [hm, h3] at h
   exact ⟨Nat.pos_of_ne_zero h2, h.symm⟩
 
-/-- normal form of the spectrogram axes -/
-theorem stftAxesGen_ok (pinned : Bool) (len : Nat) (t0 step w h : Rat) (a : SpecAxes)
-    (hok : stftAxesGen pinned len t0 step w h = .ok a) :
-    0 < len ∧ 1 ≤ stftNperseg step w ∧ stftNoverlap step w h < min (stftNperseg step w) (len : Int) ∧
-    a = ⟨stftNperseg step w, stftNoverlap step w h,
-         ⟨stftTimes t0 step (min (stftNperseg step w) (len : Int) - stftNoverlap step w h)
-            (stftCount len (min (stftNperseg step w) (len : Int)) (stftNoverlap step w h)),
-          if pinned then h else ((stftNperseg step w - stftNoverlap step w h : Int) : Rat) / (1 / step)⟩,
-         ⟨stftFreqs step (min (stftNperseg step w) (len : Int)), 1 / step / (stftNperseg step w : Rat)⟩⟩ := by
+/-- clamping twice is clamping once: scipy's own `min nperseg len` is a no-op on the repaired code -/
+theorem stftClamp_true_min (req : Int) (len : Nat) :
+    min (stftClamp true req len) (len : Int) = stftClamp true req len := by
+  simp only [stftClamp, if_true]; omega
+
+theorem stftClamp_true_le (req : Int) (len : Nat) : stftClamp true req len ≤ (len : Int) := by
+  simp only [stftClamp, if_true]; omega
+
+/-- normal form of the spectrogram axes (`N` = the `nperseg` the code uses: clamped or requested) -/
+theorem stftAxesGen_ok (pinned clamp : Bool) (len : Nat) (t0 step w h : Rat) (a : SpecAxes)
+    (hok : stftAxesGen pinned clamp len t0 step w h = .ok a) :
+    0 < len ∧ 1 ≤ stftClamp clamp (stftNperseg step w) len ∧
+    stftNoverlap step w h < min (stftClamp clamp (stftNperseg step w) len) (len : Int) ∧
+    a = ⟨stftClamp clamp (stftNperseg step w) len, stftNoverlap step w h,
+         ⟨stftTimes t0 step (min (stftClamp clamp (stftNperseg step w) len) (len : Int) - stftNoverlap step w h)
+            (stftCount len (min (stftClamp clamp (stftNperseg step w) len) (len : Int)) (stftNoverlap step w h)),
+          if pinned then h
+          else ((stftClamp clamp (stftNperseg step w) len - stftNoverlap step w h : Int) : Rat) / (1 / step)⟩,
+         ⟨stftFreqs step (min (stftClamp clamp (stftNperseg step w) len) (len : Int)),
+          1 / step / (stftClamp clamp (stftNperseg step w) len : Rat)⟩⟩ := by
   unfold stftAxesGen at hok
+  generalize stftClamp clamp (stftNperseg step w) len = N at hok ⊢
   by_cases h1 : len = 0
   · simp only [h1, if_true] at hok; exact absurd hok (by simp)
-  by_cases h2 : stftNperseg step w < 1
+  by_cases h2 : N < 1
   · simp only [h1, h2, if_true, if_false] at hok; exact absurd hok (by simp)
-  by_cases h3 : stftNoverlap step w h ≥ min (stftNperseg step w) (len : Int)
+  by_cases h3 : stftNoverlap step w h ≥ min N (len : Int)
   · simp only [h1, h2, h3, if_true, if_false] at hok; exact absurd hok (by simp)
   simp only [h1, h2, h3, if_false, Except.ok.injEq] at hok
   exact ⟨Nat.pos_of_ne_zero h1, by omega, by omega, hok.symm⟩
+
+/-- normal form of the axes of the code that exists (fixes C15-1 and C15-3): everything is computed
+    from `N = min (requested nperseg) len`, the window scipy actually uses -/
+theorem stftAxes_ok (len : Nat) (t0 step w h : Rat) (a : SpecAxes)
+    (hok : stftAxes len t0 step w h = .ok a) :
+    0 < len ∧ 1 ≤ min (stftNperseg step w) (len : Int) ∧
+    stftNoverlap step w h < min (stftNperseg step w) (len : Int) ∧
+    a = ⟨min (stftNperseg step w) (len : Int), stftNoverlap step w h,
+         ⟨stftTimes t0 step (min (stftNperseg step w) (len : Int) - stftNoverlap step w h)
+            (stftCount len (min (stftNperseg step w) (len : Int)) (stftNoverlap step w h)),
+          ((min (stftNperseg step w) (len : Int) - stftNoverlap step w h : Int) : Rat) / (1 / step)⟩,
+         ⟨stftFreqs step (min (stftNperseg step w) (len : Int)),
+          1 / step / (min (stftNperseg step w) (len : Int) : Int)⟩⟩ := by
+  obtain ⟨h0, h1, h2, ha⟩ := stftAxesGen_ok false true len t0 step w h a hok
+  rw [stftClamp_true_min] at h2 ha
+  have hc : stftClamp true (stftNperseg step w) len = min (stftNperseg step w) (len : Int) := by
+    simp [stftClamp]
+  rw [hc] at h1 h2 ha
+  simp only [Bool.false_eq_true, if_false] at ha
+  exact ⟨h0, h1, h2, ha⟩
 
 theorem stftTimes_length (t0 step : Rat) (nstep : Int) (cnt : Nat) :
     (stftTimes t0 step nstep cnt).length = cnt := by simp [stftTimes]
